@@ -15,7 +15,7 @@ DECIDES = ('grid, quad and triangle index arithmetic follows the sample grid lay
            'facet count equal to the list iterated, one normal from triangle_normal(t) and the three vertices of t per facet (ST1); the '
            'container tessellates serially and in parallel with the same worker (AG5); the trimming point-in-polygon test uses the non-zero '
            'winding rule (WN1); [SKEL, bounded] make_triangle_mesh never indexes outside its vertex array and creates exactly one vertex per '
-           'strided sample for sample sizes 2..13 (thorough: 2..40), square and non-square, every spacing dividing size - 1. every surface of a container gets its own tessellator object (IV7). the container forces its elements to be numbered afresh before it adds the running id offsets to their vertices and faces (OFF1); every shipped tessellator accepts the keywords Surface.tessellate passes and gives its vertices their parameters (TK1); the vertex pass and the triangle pass of the trimming tessellator read and set the same sticky flags in the same branches (TR1); vertices are re-evaluated on every path that tessellates (TV1); each vertex object occurs once with ids 0..N-1 also when the tessellation function hands grid vertices back (FN2, SKEL); no mesh element caches values derived from its vertices (IV5); the mesh exporters copy sample sizes per direction (AXK).')
+           'strided sample for sample sizes 2..13 (thorough: 2..40), square and non-square, every spacing dividing size - 1. every surface of a container gets its own tessellator object (IV7). the container forces its elements to be numbered afresh before it adds the running id offsets to their vertices and faces (OFF1); every shipped tessellator accepts the keywords Surface.tessellate passes and gives its vertices their parameters (TK1); the vertex pass and the triangle pass of the trimming tessellator read and set the same sticky flags in the same branches (TR1); vertices are re-evaluated on every path that tessellates (TV1); each vertex object occurs once with ids 0..N-1 also when the tessellation function hands grid vertices back (FN2, SKEL); no mesh element caches values derived from its vertices (IV5); the mesh exporters copy sample sizes per direction (AXK). the (u, v) stored in the vertices are mapped onto the surface domain before re-evaluation, or only normalised surfaces are re-evaluated (TV2: known finding on the pinned tree - tessellation assumes the unit square).')
 NOT_DECIDED = 'Euler characteristic, orientation, exact tiling, that vertex positions equal the surface (needs C01), trimmed region vs cell size, normals\' direction: geometric/numerical.'
 TECHNIQUE = 'stride rule on preallocated arrays, axis tags, writer structure rules, branch equivalence; bounded index-skeleton interpretation'
 
@@ -293,6 +293,21 @@ def tv1(m, run):
             okr = same and ev and full and okskip
     run.ob('TV1.vertex-on-surface', fi.key, okr, 'every vertex k gets evaluate_single(vertex k .uv)' if okr else
            'vertex positions are not re-evaluated at their own stored parameters for every vertex', site(fi))
+    # the mesh generators number the parametric rectangle as [0, 1] x [0, 1] (their steps are 1 / (size - 1)); a surface whose knot vectors are
+    # not normalised has another domain, so the stored (u, v) must be mapped onto self.domain before evaluate_single - or the re-evaluation
+    # must be restricted to normalised surfaces
+    evs = [c for c in walk_no_nested(fi.node) if isinstance(c, ast.Call) and norm(c.func) == 'self.evaluate_single' and c.args]
+    if evs:
+        from ..cfg import CFG as _CFG
+        cfg0 = _CFG(fi.node)
+        arg = evs[0].args[0]
+        defs_ = [a.value for a in walk_no_nested(fi.node) if isinstance(a, ast.Assign) and isinstance(a.targets[0], ast.Name) and isinstance(arg, ast.Name) and a.targets[0].id == arg.id]
+        mapped = any(isinstance(x, ast.Attribute) and x.attr in ('domain', 'knotvector_u', 'knotvector_v', 'range') for d in defs_ + [arg] for x in ast.walk(d))
+        only_norm = any(pol and norm(e) == 'self._kv_normalize' for e, pol in cfg0.facts_at(cfg0.node_of(evs[0])))
+        okd = mapped or only_norm
+        run.ob('TV2.vertex-parameters-in-the-domain', fi.key, okd, 'the stored (u, v) are mapped onto the domain (or only normalised surfaces are re-evaluated)' if okd else
+               'vertices carry (u, v) in [0, 1] x [0, 1] but are re-evaluated with evaluate_single((u, v)) also when the knot vectors are not normalised: for a domain '
+               'other than the unit square every vertex is evaluated at the wrong (possibly out-of-domain) parameters', site(fi, evs[0]))
     # ... on every path: once the component has tessellated, no normal exit is reached without passing the re-evaluation loop (the
     # vertices are created from the cached evaluated points, which need not cover the whole domain: evaluate(start=..., stop=...) )
     from ..cfg import CFG
